@@ -392,26 +392,42 @@ func checkNetconfOpenOrder(c *Ctx, r *Report) {
 		r.Anchor(rule, "(*netconf.Driver).Open / channel Open, Close / read")
 		return
 	}
-	var seq []ssa.Instruction
+	// a step is either called in Open itself or in a helper of this package that Open calls once (one level)
+	var seq []openStep
 	names := []string{"Channel.Open"}
 	co := staticCallsTo(open, chOpen)
 	if len(co) != 1 {
 		r.Bad(rule, "Open calls Channel.Open once", c.Pos(open.Pos()), fmt.Sprintf("%d calls of Channel.Open", len(co)))
 		return
 	}
-	seq = append(seq, co[0])
+	seq = append(seq, openStep{outer: co[0], inner: co[0], fn: open})
 	for _, s := range steps {
 		f := c.LookupFunc("driver/netconf", "Driver", s)
 		if f == nil {
 			r.Anchor(rule, "(*netconf.Driver)."+s)
 			return
 		}
-		cs := staticCallsTo(open, f)
-		if len(cs) != 1 {
-			r.Bad(rule, "Open calls "+s+" once", c.Pos(open.Pos()), fmt.Sprintf("%d calls of %s in Open (exactly one required: the client sends exactly one hello)", len(cs), s))
+		var found []openStep
+		for _, ci := range staticCallsTo(open, f) {
+			found = append(found, openStep{outer: ci, inner: ci, fn: open})
+		}
+		for _, ci := range callInstrs(open) {
+			h := ci.Common().StaticCallee()
+			if h == nil || h == f || h.Pkg != open.Pkg || len(h.Blocks) == 0 {
+				continue
+			}
+			if _, ok := ci.(*ssa.Call); !ok {
+				continue
+			}
+			for _, in := range staticCallsTo(h, f) {
+				found = append(found, openStep{outer: ci, inner: in, fn: h})
+			}
+		}
+		if len(found) != 1 {
+			r.Bad(rule, "Open calls "+s+" once", c.Pos(open.Pos()), fmt.Sprintf("%d calls of %s in Open (exactly one required: the client sends exactly one hello)", len(found), s))
 			return
 		}
-		seq = append(seq, cs[0])
+		seq = append(seq, found[0])
 		names = append(names, s)
 	}
 	var goRead ssa.Instruction
@@ -424,13 +440,25 @@ func checkNetconfOpenOrder(c *Ctx, r *Report) {
 		r.Bad(rule, "Open starts the reader", c.Pos(open.Pos()), "Open does not start the NETCONF read loop")
 		return
 	}
-	seq = append(seq, goRead)
+	seq = append(seq, openStep{outer: goRead, inner: goRead, fn: open})
 	names = append(names, "go read")
 	okOrder := true
 	for i := 0; i+1 < len(seq); i++ {
-		if !dominatesInstr(seq[i], seq[i+1]) {
+		a, b := seq[i], seq[i+1]
+		ok := false
+		switch {
+		case a.fn == b.fn:
+			ok = dominatesInstr(a.inner, b.inner)
+		case a.fn == open:
+			// b runs inside a helper: the helper's call site comes after a
+			ok = dominatesInstr(a.outer, b.outer)
+		default:
+			// a runs inside a helper: the helper is called before b and cannot succeed without running a
+			ok = dominatesInstr(a.outer, b.outer) && runsOnEverySuccess(a.fn, a.inner)
+		}
+		if !ok {
 			okOrder = false
-			r.Bad(rule, "order "+names[i]+" before "+names[i+1], c.Pos(seq[i+1].Pos()), names[i]+" does not precede "+names[i+1]+" on every path")
+			r.Bad(rule, "order "+names[i]+" before "+names[i+1], c.Pos(b.inner.Pos()), names[i]+" does not precede "+names[i+1]+" on every path")
 		}
 	}
 	if okOrder {
@@ -453,19 +481,20 @@ func checkNetconfOpenOrder(c *Ctx, r *Report) {
 	} else {
 		r.OK(rule, "no write after the reader started", c.Pos(goRead.Pos()), "")
 	}
-	// each step's error is returned
-	for i, in := range seq[:4] {
-		call := in.(*ssa.Call)
-		errv := errResultsOf(call)
+	// each step's error is returned (by the helper it runs in, and by Open)
+	for i, st := range seq[:4] {
 		construct := "error of " + names[i] + " returned"
-		if len(errv) != 1 {
-			r.Unk(rule, construct, c.Pos(call.Pos()), "call has no single error result")
-			continue
+		msg := stepErrReturned(c, st.fn, st.inner)
+		if msg == "" && st.fn != open {
+			msg = stepErrReturned(c, open, st.outer)
 		}
-		if msg := errLeadsToReturn(c, open, errv[0]); msg != "" {
-			r.Bad(rule, construct, c.Pos(call.Pos()), msg)
-		} else {
-			r.OK(rule, construct, c.Pos(call.Pos()), "")
+		switch msg {
+		case "":
+			r.OK(rule, construct, c.Pos(st.inner.Pos()), "")
+		case "?":
+			r.Unk(rule, construct, c.Pos(st.inner.Pos()), "call has no single error result")
+		default:
+			r.Bad(rule, construct, c.Pos(st.inner.Pos()), msg)
 		}
 	}
 	// deferred close on named result
@@ -492,7 +521,7 @@ func checkNetconfOpenOrder(c *Ctx, r *Report) {
 			simple = ok && (nonNil == conds[0].Truth) && isNamedResultLoad(x, open, mc)
 		}
 		// the defer must come right after the channel opened: dominate the first step
-		if simple && dominatesInstr(d, seq[1]) && dominatesInstr(seq[0], d) {
+		if simple && dominatesInstr(d, seq[1].outer) && dominatesInstr(seq[0].outer, d) {
 			okDefer = true
 		}
 	}
@@ -501,6 +530,58 @@ func checkNetconfOpenOrder(c *Ctx, r *Report) {
 	} else {
 		r.Bad(rule, "failure closes the channel", c.Pos(open.Pos()), "Open does not unconditionally close the channel when it returns an error after the channel was opened (deferred close guarded by exactly `reterr != nil` not found before the capabilities exchange): transport and reader are leaked on a failed negotiation")
 	}
+}
+
+// openStep: one step of session establishment: the call in Open (outer) and, when the step runs in a helper, the call inside it.
+type openStep struct {
+	outer ssa.Instruction
+	inner ssa.Instruction
+	fn    *ssa.Function
+}
+
+// runsOnEverySuccess: every return of fn either comes after `in` or returns an error known to be non-nil.
+func runsOnEverySuccess(fn *ssa.Function, in ssa.Instruction) bool {
+	for _, b := range fn.Blocks {
+		for _, x := range b.Instrs {
+			ret, ok := x.(*ssa.Return)
+			if !ok || dominatesInstr(in, ret) {
+				continue
+			}
+			if len(ret.Results) == 0 {
+				return false
+			}
+			e := ret.Results[len(ret.Results)-1]
+			if !guardedBy(ret, func(cond ssa.Value, truth bool) bool {
+				v, nonNil, ok := nilCheck(cond)
+				return ok && v == e && nonNil == truth
+			}) {
+				return false
+			}
+		}
+	}
+	return true
+}
+
+// stepErrReturned: the error of the call is returned by fn: tested and returned, or the call's result is what fn returns.
+func stepErrReturned(c *Ctx, fn *ssa.Function, in ssa.Instruction) string {
+	call, ok := in.(*ssa.Call)
+	if !ok {
+		return "?"
+	}
+	errv := errResultsOf(call)
+	if len(errv) != 1 {
+		return "?"
+	}
+	direct := false
+	for _, ref := range *errv[0].Referrers() {
+		if ret, ok := ref.(*ssa.Return); ok && ret.Block() == call.Block() {
+			direct = true
+		}
+	}
+	if direct {
+		return ""
+	}
+	return errLeadsToReturn(c, fn, errv[0])
 }
 
 // isNamedResultLoad: x is a load of the captured named result of parent.
